@@ -107,6 +107,18 @@ CHECKS = {
             "information, bond spectra; from_mps; auxiliary-space operators.",
             "prod(d) <= 600; dense references in generation order",
             "DESIGN.md section 3 / C11"),
+    "C12": ("exploration",
+            "reference-model monitor for tree time evolution: every scheme (tdvp_vmf, prop_and_compress_tdrk4, tdvp_ps, "
+            "tdvp_ps2) in real and imaginary time against the dense propagator with per-scheme oracles (exact within "
+            "solver tolerance where the scheme is exact, measured convergence order on step halving otherwise), sector "
+            "and label monitors on every result, norm/energy conservation monitor for truncated one-site TDVP over "
+            "multi-step histories, linear-tree-versus-chain differential monitor, auxiliary-space (purified) states",
+            "All tree kinds (linear, binary, MCTDH-like, T3NS, random with multi-set / virtual root, internal and leaf "
+            "nodes); none/one/two quantum numbers; full-rank, sector-limited, truncated and product states; prefactors; "
+            "2-4-call histories mixing schemes, steps, real and imaginary time.",
+            "prod(d) <= 150 (auxiliary space: <= 16 per copy); real Hermitian Hamiltonians (the TTNO refuses complex "
+            "operators); models with negative quantum-number labels excluded (TTNS.random cannot build them)",
+            "DESIGN.md section 3 / C12"),
     "C13": ("exploration",
             "alias monitor: fingerprints (todense*coeff) of ALL live objects are recorded before and re-computed after "
             "every public call of a generated history; second phase mutates one object in place and observes the others; "
